@@ -30,7 +30,7 @@ STATE_MEASURE = 'order type of the completion events (return/error/timeout/loss/
 PROBES = ['reply-and-deadline-both-enabled', 'reply-after-timeout', 'duplicate-reply-delivered',
           'unsolicited-reply-delivered', 'loss-with-pending-calls', 'replies-out-of-call-order',
           'sig-mismatch', 'call-issued-from-callback', 'second-connection-same-serials',
-          'identical-call-in-flight-twice']
+          'identical-call-in-flight-twice', 'serial-wrap-around']
 COMPONENTS = {
     'real': ['txdbus.client.DBusClientConnection (callRemote, callRemoteMessage, '
              'methodReturnReceived, errorReceived, _onMethodTimeout, connectionLost, _cbCvtReply)',
@@ -72,6 +72,10 @@ def scenario(ctx):
     ds, sim = ctx.ds, ctx.sim
     unix = ds.flag(0.3)
     start = 1 + ds.choose(2**32 - 10**6)
+    if ds.flag(0.04):
+        # a process that has sent almost 2^32 messages: serial numbers are about to wrap around
+        start = 2**32 - 1 - ds.choose(8)
+        sim.probe('serial-wrap-around')
     rig = ClientRig(ctx, unix=unix, serial_start=start)
     cl = rig.proto
     daemon = rig.daemon
